@@ -111,12 +111,12 @@ def check_seq(case):
     s = build(spec)
     args = mkargs()
     args0 = copy.deepcopy(args)
-    k0, id0 = e2.kfull(s, ()), e2.ids(s)
+    k0, id0 = e2.kfull(s, (), extra=False), e2.ids(s)
     last = None
     for a in seq:
         last = run_analysis(s, spec, a, args)
         res.stats["transitions"] += 1
-        k1 = e2.kfull(s, ())
+        k1 = e2.kfull(s, (), extra=False)
         if k1 != k0 or e2.ids(s) != id0:
             diff = [x for x, y in zip(k0[0] + k0[1], k1[0] + k1[1]) if x != y][:1]
             res.v(("C17.system-mutated", a), "%s changed the system: %s" % (a, str(diff)[:200]))
@@ -145,7 +145,7 @@ def check_fault(case):
     # reference: same system untouched
     ref = mksys(variant, 5.0, 0.3, PHASES[phname])
     p0 = ref.params().astype(str).to_dict("records")
-    k0 = e2.kfull(ref, ())
+    k0 = e2.kfull(ref, (), extra=False)
     s, calls, log, exc, npf = run_seq(variant, phname, seq, fault=fault)
     res.stats["transitions"] += len(calls) + 1
     kind = "pfunc-raises" if fault == "pfunc" else ("dfunc-raises" if "X" in seq else ("dfunc-aborts" if "Y" in seq else ("solver-raises" if "H" in seq else "normal")))
@@ -157,7 +157,7 @@ def check_fault(case):
     if p1 != p0:
         d = [(a["Component"], a["vo (V)"], b["vo (V)"], a["rs (Ohm)"], b["rs (Ohm)"]) for a, b in zip(p0, p1) if a != b]
         res.v(("C17.battery-not-restored", kind), "seq %s at call %d: %r" % (seq, len(calls), d[:2]))
-    elif e2.kfull(s, ()) != k0:
+    elif e2.kfull(s, (), extra=False) != k0:
         res.v(("C17.batt_life-mutated-system", kind), "seq %s" % seq)
     res.nontrivial = 1 if (kind != "normal" and len(calls) > 1) else 0
     res.classes.add(kind)
